@@ -57,6 +57,8 @@ CONFIG = {
     'min_evals': {'quick': {'c16.new': 200000, 'c16.census': 500,
                             'c16.canon': 50000},
                   'thorough': {'c16.new': 5000000}},
+    'internal_sig': ['inject:drop_in_find_isomorph',
+                     'inject:gc_in_find_isomorph'],
     'must_sig': ['new:created', 'new:reused', 'new:collapsed',
                  'inject:drop_in_find_isomorph', 'inject:gc_in_find_isomorph',
                  'inject:drop', 'inject:gc', 'step:cycle', 'step:restrict',
@@ -272,12 +274,23 @@ def install_injector_hooks():
         return None
     m.register_callback(TOOL, m.events.LINE, cb)
     NT = bm.BDDNonTerminalNode
-    funcs = [bm.find_isomorph, _orig['new'], NT.__dict__['__reset__'],
-             bm.BDDNode.__dict__['__reset__'], bm.apply, bm.compute,
-             bm.cache_restrict, bm.compute_restrict,
-             bm.BDDsons_and_BDD, bm.BDD_and_BDDsons, bm.BDDsons_and_BDDsons,
-             NT.__dict__['__invert__'],
-             bm.BDDTerminalNode.__dict__['__invert__']]
+    funcs = [_orig['new']]
+    for name in ('find_isomorph', 'apply', 'compute', 'cache_restrict',
+                 'compute_restrict', 'BDDsons_and_BDD', 'BDD_and_BDDsons',
+                 'BDDsons_and_BDDsons'):
+        f = getattr(bm, name, None)
+        if f is None:
+            # private helper renamed/removed by a refactoring: inject at the
+            # remaining sites; requirements naming it are waived
+            LOG.counters['internal_hooks_unavailable'] += 1
+            LOG.notes.append('injector: BDD.%s not found' % name)
+        else:
+            funcs.append(f)
+    for cls, name in ((NT, '__reset__'), (bm.BDDNode, '__reset__'),
+                      (NT, '__invert__'), (bm.BDDTerminalNode, '__invert__')):
+        f = cls.__dict__.get(name)
+        if f is not None:
+            funcs.append(f)
     for f in funcs:
         code = getattr(f, '__code__', None)
         if code is not None:
